@@ -39,9 +39,11 @@ def run(repo, res, tier):
                         f"(configurations: {', '.join(sorted(set(cfgs)))}); loaders document only LexerError and ParseError",
                         extra={"configs": sorted(set(cfgs)), "origin": origin, "exc": exc}))
     common.triage_tb3(repo, res)
+    common.triage_enum(repo, res)
     table = __import__("vsa.triage", fromlist=["TABLE"]).TABLE
     for f in res.findings:
-        if f.rule == "T3" and not __import__("vsa.triage", fromlist=["matches"]).matches(f.key, table):
+        if f.rule == "T3" and not __import__("vsa.triage", fromlist=["matches"]).matches(f.key, table) \
+                and not any(f is tf for tf, _ in res.triaged):
             bad_origins.setdefault(f.extra["origin"], set()).add(f.extra["exc"])
     for s in sorted(sites):
         res.oblige("T3", s, ok=s not in bad_origins and not any(s in o for o in bad_origins),
@@ -53,7 +55,7 @@ def run(repo, res, tier):
     t4keys = {f"{f.function} `{f.anchor}`" for f in t4}
     for w in parserules.event_sites(an, "while"):
         res.oblige("T4", w, ok=w not in t4keys, detail="every cyclic path consumes a token")
-    res.floor("token-pulling while loops", len(parserules.event_sites(an, "while")), 2)
+    res.floor("token-pulling while loops", len(parserules.event_sites(an, "while")), 1)
     t8 = parserules.add_rule(res, an, "T8")
     decrules.rule_gd1(repo, res)
     # ParseError.token is read by OmniParser.parse_assignment_statement as a Token (err.token.pos): a ParseError
